@@ -388,6 +388,15 @@ theorem prepare_rejected_iff (C : Codecs) (b : Bytes) (fromEnc : Option Name) (e
 example : prepareMarkup ⟨fun _ => true, fun _ _ => some [], fun _ _ => some [], fun _ => none⟩ (.bytes [65]) none
     [ofS "UTF-8", ofS "windows-1252"] = .rejected := by decide
 
+/-- The deprecated `fromEncoding=` keyword means exactly what `from_encoding=` means, also when an empty
+    `from_encoding` is given next to it. (Giving BOTH with a non-empty `from_encoding` is outside the
+    model: the `or` short-circuits, the deprecated keyword stays among the builder's keyword arguments
+    and the TreeBuilder constructor raises TypeError.) -/
+theorem deprecated_fromEncoding_alias (C : Codecs) (m : Markup) (e : Name) (excl : List Name) :
+    constructorPrepare C m none (some e) excl = constructorPrepare C m (some e) none excl ∧
+    constructorPrepare C m (some []) (some e) excl = constructorPrepare C m (some e) none excl := by
+  cases he : e.isEmpty <;> simp [constructorPrepare, effectiveFromEncoding, he, prepareMarkup, prepareMarkupFull, knownOfFromEncoding]
+
 /-! ## the declared encoding -/
 
 /-- declared_html_encoding reports what the BOM-stripped document declares, independently of which
